@@ -6,6 +6,7 @@ import (
 	"fmt"
 	"hash"
 	"io"
+	stdlog "log"
 	"math/rand"
 	"runtime"
 	"runtime/debug"
@@ -282,6 +283,7 @@ var logSetup sync.Once
 func Execute(t *testing.T, r *Run, body func(r *Run)) (leaked int, hung bool) {
 	logSetup.Do(func() {
 		log.SetOutput(io.Discard)
+		stdlog.SetOutput(io.Discard) // net/http writes handshake errors to the standard logger
 		log.SetLevel(log.TraceLevel)
 		log.SetFormatter(&nullFormatter{})
 	})
